@@ -242,7 +242,6 @@ class Exec:
         for i in range(size):
             found = None
             for co, (csz, cv) in o.cells.items():
-                if not (isc(co) and isc(csz) and isc(off)): raise Violation('unsupported', 'internal: cell with a symbolic key in %s (%r %r %r)' % (o.name, co, csz, off), st)
                 if co <= off + i < co + csz:
                     bits = s.cell_bits(cv, csz); k = off + i - co
                     found = ((bits >> (8 * k)) & 0xff) if isc(bits) else z3.Extract(8 * k + 7, 8 * k, bits)
